@@ -70,13 +70,7 @@ func (n String) String() string {
 }
 
 func (n String) Number() float64 {
-	ret, err := strconv.ParseFloat(string(n), 64)
-
-	if err != nil {
-		return math.NaN()
-	}
-
-	return ret
+	return getStringNumber(string(n))
 }
 
 func (n String) Bool() bool {
@@ -101,7 +95,20 @@ func (n NodeSet) Bool() bool {
 	return len(n) > 0
 }
 
+const xmlWhitespace = " \t\r\n"
+
+// getStringNumber converts a string to a number as the XPath number function
+// does: optional whitespace, an optional minus sign, and a Number.
 func getStringNumber(str string) float64 {
+	str = strings.Trim(str, xmlWhitespace)
+	digits := strings.TrimPrefix(str, "-")
+	integer := strings.TrimLeft(digits, "0123456789")
+	fraction := strings.TrimLeft(strings.TrimPrefix(integer, "."), "0123456789")
+
+	if fraction != "" || digits == "" || digits == "." {
+		return math.NaN()
+	}
+
 	ret, err := strconv.ParseFloat(str, 64)
 
 	if err != nil {
